@@ -6,7 +6,7 @@ set -u
 patch=$(readlink -f "$1"); shift
 tag=mt_$$
 R=/tmp/${tag}_repo; V=/tmp/${tag}_verif
-cp -r /repo $R && cp -r /verif $V || exit 2
+cp -r /repo $R && cp -r ${VERIF_SRC:-/verif} $V || exit 2
 rm -rf $V/build/.lock
 ( cd $R && git apply "$patch" ) || { echo "PATCH-DOES-NOT-APPLY"; rm -rf $R $V; exit 2; }
 for id in "$@"; do
